@@ -17,6 +17,7 @@ from . import spec
 from .core import to_z3
 
 Z3_CLI = shutil.which('z3-new') or shutil.which('z3')
+Z3_OLD = '/usr/bin/z3'
 CVC5_CLI = shutil.which('cvc5')
 
 
@@ -38,7 +39,7 @@ def _syms(f):
     return set(n for n in spec.decl_names([f]) if n not in BUILTIN and not n[:1].isdigit() and not n.startswith('-'))
 
 
-def obligation_formulas(ob, slim=0):
+def obligation_formulas(ob, slim=0, background=True):
     """hypotheses + negated goal.  slim > 0: only the hypotheses that share a symbol with the goal (and the proven
     hints), closed under `slim` rounds - dropping hypotheses is sound, it only makes the query smaller"""
     hints = [to_z3(getattr(h, 'conclusion', None) if getattr(h, 'conclusion', None) is not None else h.goal)
@@ -67,6 +68,8 @@ def obligation_formulas(ob, slim=0):
                 break
         hyps = [h for h, k in zip(hyps, keep) if k]
     forms = hyps + hints + [goal]
+    if not background:
+        return forms        # without the quantified lemma library (sound: fewer hypotheses)
     return spec.relevant_background(forms) + forms
 
 
@@ -155,11 +158,11 @@ def core_formulas(ob):
     return purify(hyps + [h for h in hints if not has_quantifier(h)] + [goal])
 
 
-def build_solver(ob, timeout_ms=None, slim=0):
+def build_solver(ob, timeout_ms=None, slim=0, background=True):
     s = z3.Solver()
     if timeout_ms:
         s.set('timeout', int(timeout_ms))
-    for f in obligation_formulas(ob, slim):
+    for f in obligation_formulas(ob, slim, background):
         s.add(f)
     return s
 
@@ -190,10 +193,22 @@ def _decide(args):
         total += sec4
         if st4 == 'unsat':
             return Verdict(ob, 'unsat', 'z3-5.1/qf-core', total)
-    st, sec, detail = _run_cli([Z3_CLI, '-T:%d' % timeout_s], path, timeout_s)
+    # a short slice of the main solver, then the second solver, then the main solver with the whole budget
+    first = min(5, timeout_s)
+    st, sec, detail = _run_cli([Z3_CLI, '-T:%d' % first], path, first)
     total += sec
     if st in ('sat', 'unsat'):
         return Verdict(ob, st, 'z3-5.1', total)
+    if os.path.exists(Z3_OLD):
+        st6, sec6, _ = _run_cli([Z3_OLD, '-T:5'], path, 5)
+        total += sec6
+        if st6 == 'unsat':
+            return Verdict(ob, 'unsat', 'z3-4.8.12', total)
+    if timeout_s > first:
+        st, sec, detail = _run_cli([Z3_CLI, '-T:%d' % timeout_s], path, timeout_s)
+        total += sec
+        if st in ('sat', 'unsat'):
+            return Verdict(ob, st, 'z3-5.1', total)
     if sec < 0.5 * timeout_s:
         # gave up early (incomplete quantifier reasoning): second configuration, unsat only
         st2, sec2, detail2 = _run_cli([Z3_CLI, '-T:%d' % max(2, timeout_s // 2), 'smt.mbqi=false', 'smt.auto_config=false'],
@@ -201,6 +216,14 @@ def _decide(args):
         total += sec2
         if st2 == 'unsat':
             return Verdict(ob, 'unsat', 'z3-5.1/no-mbqi', total)
+    # the obligation without the quantified lemma library (many obligations need none of it, and its nested quantifiers can
+    # keep the solver busy): sound for unsat only
+    nb = path.replace('.smt2', '.nobg.smt2')
+    if os.path.exists(nb):
+        st5, sec5, _ = _run_cli([Z3_CLI, '-T:4'], nb, 4)
+        total += sec5
+        if st5 == 'unsat':
+            return Verdict(ob, 'unsat', 'z3-5.1/no-library', total)
     if os.path.exists(cp):
         st4, sec4, _ = _run_cli([Z3_CLI, '-T:%d' % max(3, timeout_s // 2)], cp, max(3, timeout_s // 2))
         total += sec4
@@ -215,6 +238,21 @@ def _decide(args):
             if st3 == 'unsat':
                 return Verdict(ob, 'unsat', 'z3-5.1/relevant-hyps-%d' % lvl, total)
     return Verdict(ob, 'unknown', 'z3-5.1', total, (detail or 'incomplete').strip())
+
+
+def _in_process_last_resort(ob, budget_ms=4000):
+    """The SMT-LIB round trip (Solver.to_smt2 + CLI) occasionally yields a harder problem than the in-memory terms (lambda /
+    quantifier instantiation order).  An obligation every CLI configuration left open is tried once more on the in-memory
+    terms, hypotheses filtered by relevance (sound for unsat only).  Serial, so reserved for the few leftovers."""
+    for slim in (2, 1, 'pc'):
+        try:
+            s = build_solver(ob, timeout_ms=budget_ms, slim=slim)
+            t0 = time.time()
+            if s.check() == z3.unsat:
+                return 'z3-5.1/in-process(relevant-hyps-%s)' % slim, time.time() - t0
+        except Exception:
+            pass
+    return None, 0.0
 
 
 def discharge(obligations, timeout_s=10, jobs=16, keep_dir=None):
@@ -251,6 +289,8 @@ def discharge(obligations, timeout_s=10, jobs=16, keep_dir=None):
                         sc.add(f)
                     with open(path.replace('.smt2', '.core.smt2'), 'w') as fh:
                         fh.write(sc.to_smt2())
+                with open(path.replace('.smt2', '.nobg.smt2'), 'w') as fh:
+                    fh.write(build_solver(ob, background=False).to_smt2())
                 if len(ob.pc) + len(ob.facts or []) > 12:
                     for lvl in (1, 2):
                         with open(path.replace('.smt2', '.slim%d.smt2' % lvl), 'w') as fh:
@@ -264,6 +304,13 @@ def discharge(obligations, timeout_s=10, jobs=16, keep_dir=None):
                 for (k, _), v in zip(work, ex.map(_decide, [w for _, w in work])):
                     out[k] = v
                     obligations[k].proved = (v.status == 'unsat')
+            # leftovers of this round: once more on the in-memory terms (at most 12 per round)
+            left = [k for k, _ in work if out[k].status == 'unknown' and not z3.is_false(obligations[k].goal)][:12]
+            for k in left:
+                be, sec = _in_process_last_resort(obligations[k])
+                if be:
+                    out[k] = Verdict(obligations[k], 'unsat', be, out[k].seconds + sec)
+                    obligations[k].proved = True
             pending = [k for k in pending if k not in set(ready)]
             rnd += 1
     finally:
